@@ -142,6 +142,8 @@ AcceptPrint == Accepted => PrintT(<<"@@J", ToJson([accept |-> tid, consumed |-> 
 (*           99 for anything that is not a whole known line                                                *)
 (*   fail  : position of the locus made to fail (0 = none)                                                *)
 (*   lines : <<locus id (global), h1, h2>> for every record in stdout; hdr : <<h1, h2>>                   *)
+(*   ivl, vs, shared (optional): per input position the id of the locus' interval and of its variant set; *)
+(*           the intervals that several records of the dataset span                                        *)
 InitSummaries ==
   /\ InitFor(0, 1, 0, "none", FALSE)
   /\ tid = 0 /\ posM = 0 /\ posR = 0 /\ posW = <<>> /\ phase = "summaries"
@@ -166,12 +168,32 @@ SummaryVerdict(r) ==
       ELSE IF r.grp \in DOMAIN canonH /\ canonH[r.grp] # <<r.hdr[1], r.hdr[2]>> THEN "HeaderIdenticalAcrossRuns"
       ELSE "ok"
 
+(* Regime measure (no verdict): the record of a locus must not depend on what the same process computed   *)
+(* before it.  A dataset may hold records that span the same interval but list different variants          *)
+(* (r.ivl[k] = interval, r.vs[k] = variant set of the k-th locus of THIS run's input, r.shared = intervals *)
+(* that several records of the dataset span).  A run is in the regime "same-interval neighbours" when two  *)
+(* such records are handled one after the other by one process, i.e. are adjacent inside one block of      *)
+(* MultiCore's split (the whole input on the single-core path), and in the regime "same-interval apart"    *)
+(* when a record of a shared interval is the only one of its interval in its block.  The deciding clause   *)
+(* is LineIdenticalAcrossRuns: the line of a locus is the same in both regimes.                            *)
+RunBlocks(r) == IF r.cores > 1 THEN [w \in 1..r.cores |-> GoodBlock(r.nl, r.cores, w)] ELSE <<AllLoci(r.nl)>>
+HasIvl(r) == "ivl" \in DOMAIN r /\ Len(r.ivl) = r.nl /\ Len(r.vs) = r.nl
+SameIntervalNeighbours(r) ==
+  \E w \in DOMAIN RunBlocks(r) : LET b == RunBlocks(r)[w]
+                                IN  \E i \in 1..(Len(b) - 1) : r.ivl[b[i]] = r.ivl[b[i + 1]] /\ r.vs[b[i]] # r.vs[b[i + 1]]
+SameIntervalApart(r) ==
+  \E w \in DOMAIN RunBlocks(r) : LET b == RunBlocks(r)[w]
+                                IN  \E i \in DOMAIN b : /\ \E x \in DOMAIN r.shared : r.shared[x] = r.ivl[b[i]]
+                                                        /\ \A j \in DOMAIN b : j # i => r.ivl[b[j]] # r.ivl[b[i]]
+Regime(r) == [regime |-> l, neighbours |-> SameIntervalNeighbours(r), apart |-> SameIntervalApart(r)]
+
 NextSummaries ==
   /\ phase = "summaries" /\ l <= Len(Runs)
   /\ LET r == Runs[l]
          v == SummaryVerdict(r)
          new == {LineKey(r, r.lines[i]) : i \in DOMAIN r.lines} \ DOMAIN canon
      IN  /\ IF v = "ok" THEN TRUE ELSE PrintT(<<"@@J", ToJson([reject |-> l, clause |-> v])>>)
+         /\ IF HasIvl(r) /\ Len(r.shared) > 0 THEN PrintT(<<"@@J", ToJson(Regime(r))>>) ELSE TRUE
          /\ bad' = IF v = "ok" THEN bad ELSE bad + 1
          /\ canon' = [k \in DOMAIN canon \cup new |->
                         IF k \in DOMAIN canon THEN canon[k]
